@@ -103,6 +103,11 @@ func (h *Handler6) ProcessPacket(pkt packet.Frame) (err error) {
 	ip6Frame := pkt.IP6()
 	icmp6Frame := packet.ICMP(pkt.Payload())
 
+	// Parse classifies protocol 58 as PayloadICMP6 whatever carries it: an IPv4 packet has no IPv6 header
+	if ip6Frame == nil {
+		return packet.ErrParseFrame
+	}
+
 	if err := icmp6Frame.IsValid(); err != nil {
 		Logger6.Msg("error invalid icmp frame").ByteArray("frame", pkt.Payload()).Error(err).Write()
 		return err
